@@ -1,6 +1,7 @@
 """C18 — order changes and kind mixing.  Proof: Props/C18.v.  Correspondence: EXHAUSTIVE 3x3 kind pairings x every
 operator of `Number` (+ - * / % == < <= > >=), Number∘f64 in both positions, unary operators, set_order /
-set_order_clone (3 kinds x 3 orders), From conversions, Sum — `rlharness dual` ops 10-16; outcome class
+set_order_clone (3 kinds x 3 orders), From conversions (out of the container: op 15; out of / into the plain kinds
+f64 / Dual / Dual2: op 17), Sum — `rlharness dual` ops 10-17; outcome class
 (computed / refused = panic) compared exactly."""
 from common import *  # noqa
 import dualgen as dg
@@ -54,6 +55,16 @@ def gen_cases(ctx):
                                   "%s(%s -> order %d, names %s)" % ("set_order" if which == 10 else "set_order_clone", KN[ka], order, names), order))
         for _ in range(reps):
             cases.append(("from", [15] + dg.enc_number(mknum(rng, ka)), "From<%s>" % KN[ka], 0))
+    # From conversions out of / into the plain kinds (op 17): f64::from(Dual | Dual2) (lowering returns the value),
+    # Dual::from(f64) / Dual2::from(f64) (raising gives the variable-free constant), Number::from(f64 | &f64 | Dual | &Dual
+    # | Dual2 | &Dual2) (wrapping keeps everything)
+    for kk, ka in enumerate(kinds):
+        for v in [0.0, -0.0, 1.5, -2.75, 1e-300, -1e300, 123456.789] + [float(rng.uniform(-50, 50)) for _ in range(reps)]:
+            if ka == "f":
+                a = ("f", v)
+            else:
+                a = c03.mk(rng, 1 if ka == "d" else 2, rng.choice([[], ["x"], ["y", "x"], ["x", "y", "z"], ["z"]]), re=v)
+            cases.append(("from2", [17, kk] + dg.enc_number(a)[1:], "From conversions of a plain %s, value %r" % (KN[ka], v), kk, v))
     for _ in range(40 if th else 12):
         ks = rng.choice([["f", "f", "f"], ["f", "d", "d"], ["d", "f", "d"], ["d2", "f", "d2"], ["f", "d", "d2"], ["d", "d2"], []])
         l = [mknum(rng, k) for k in ks]
@@ -71,13 +82,16 @@ def schema_for(tag, oc):
         return ["int"] if oc == 9 else ["number"]
     if tag == "from":
         return ["f", "f", "dual", "dual", "dual2", "dual2"]
+    if tag == "from2":
+        return ["dual", "dual2", "number", "number"] if oc == 0 else ["f", "f", "number", "number"]
     return ["number"]
 
 
 def run(ctx):
     ctx.rule = ("EXHAUSTIVE over the 3x3 pairings of contained kinds x the 10 binary operators of Number, Number∘f64 and f64∘Number for "
                 "every operator, the 13 unary operators x 3 kinds, set_order / set_order_clone for 3 kinds x 3 target orders with name "
-                "lists incl. duplicates, all From conversions, Sum over mixed-kind sequences (incl. sequences that must be refused); "
+                "lists incl. duplicates, all From conversions (Number -> f64 / Dual / Dual2; f64::from(Dual | Dual2), Dual::from(f64), "
+                "Dual2::from(f64), Number::from(f64 | &f64 | Dual | &Dual | Dual2 | &Dual2), also tested directly: value in = value out), Sum over mixed-kind sequences (incl. sequences that must be refused); "
                 "several random dyadic draws per cell. Outcome class (value / refused = panic) compared exactly, floats at 1e-9.")
     ctx.trusted = [
         "Coq 8.16.1 kernel; theorems over R (stdlib real axioms through the NumR instance); the Number tables hold by computation",
@@ -95,14 +109,30 @@ def run(ctx):
     encd = [c[1] for c in cases]
     impl = run_harness("dual", ["c " + " ".join(str(x) for x in c) for c in encd])
     model = coq_eval("Run.RunDual", "runDual", encd, ctx.work, shard=max(30, len(encd) // (NCPU * 3) + 1), tag="c18")
-    for (tag, e, desc, oc), a, b in zip(cases, impl, model):
+    for c, a, b in zip(cases, impl, model):
+        tag, e, desc, oc = c[:4]
+        meta = c[4] if len(c) > 4 else None
         ctx.evaluations += 1
-        ctx.count(desc if tag in ("bin",) else tag + ": " + desc.split("(")[0])
+        ctx.count(desc if tag in ("bin",) else tag + ": " + desc.split("(")[0].split(", value")[0])
         ok, da, db = dg.agree(a, b, schema_for(tag, oc), rtol=1e-9)
         if da[0] == "panic":
             ctx.count("refused (panic) cells observed")
         if tag != "from":
             ctx.nontriv(tuple(e))
+        if tag == "from2" and da[0] == "ok":
+            # DIRECT TEST ON THE IMPLEMENTATION beside the model comparison: lowering returns exactly the value that went in,
+            # raising a float yields a number without variables, wrapping keeps kind and value
+            it, vb = da[1], f2b(meta)
+            if oc == 0:
+                good = (it[0]["vars"] == [] and it[0]["du"] == [] and f2b(it[0]["re"][1]) == vb and it[1]["vars"] == []
+                        and f2b(it[1]["re"][1]) == vb and it[2]["kind"] == 0 and it[3]["kind"] == 0
+                        and f2b(it[2]["v"][1]) == vb and f2b(it[3]["v"][1]) == vb)
+            else:
+                good = (f2b(it[0][1]) == vb and f2b(it[1][1]) == vb and it[2]["kind"] == oc and it[3]["kind"] == oc
+                        and f2b(it[2]["v"]["re"][1]) == vb and f2b(it[3]["v"]["re"][1]) == vb)
+            ctx.count("direct From test: %s" % ("raise / wrap f64" if oc == 0 else "lower / wrap %s" % KN[["f", "d", "d2"][oc]]))
+            if not good:
+                ok = False
         if not ok:
             ctx.violation("the implementation disagrees with the proved model on %s: implementation %s, model %s" % (
                 desc, str(dg.plain(da))[:300], str(dg.plain(db))[:300]),
